@@ -73,7 +73,9 @@ fn case_bucket(c: &BucketCase) -> Toks {
 fn gen_bucket(r: &mut Rng, stats: &mut Stats) -> BucketCase {
     let w = (CAP / RATE) as u32;
     let cap = CAP as u32;
-    let wild = r.chance(1, 6);
+    // the arbitrary stream pins the aborts of the debug profile (u32 overflow checks); a release
+    // build wraps instead, which the model (of the checked arithmetic) does not describe
+    let wild = r.chance(1, 6) && cfg!(debug_assertions);
     let t0: u32 = match r.below(5) {
         0 => w,
         1 => w + r.below(3) as u32,
